@@ -6,3 +6,5 @@ git -C /repo apply $P || exit 2
 cd /verif && ./check $C --tier $T 2>&1 | grep -v "^>>>" | tail -${4:-6}
 git -C /repo checkout -- . ; git -C /repo clean -fdq -- ixpeobssim >/dev/null 2>&1
 git -C /repo status --short
+# the generated Lean files and the evidence now describe the changed tree: bring them back to /repo as it is
+cd /verif && /venv/bin/python translator/gen.py >/dev/null 2>&1; git -C /verif checkout -- evidence 2>/dev/null
